@@ -3,6 +3,7 @@ CONSTANTS K = 1 SendPuncture = TRUE PunctureFirst = TRUE FollowAll = FALSE MaxId
           APlaces = {"nat"} CandPlaces = {"nat"}
           MaxContactsA = 2 MaxContactsB = 2
           MinContacts = 2 MaxRebinds = 1 Clock0 = 65534 Refresh = TRUE Ident16 = FALSE
+          Svcs = {"M"} Phased = FALSE V6N = 0 StyleAware = TRUE SvcWalkable = TRUE
 INVARIANT TypeOK
 INVARIANT Reach
 INVARIANT LanMeet
